@@ -207,11 +207,11 @@ struct Tap {
 }
 
 enum Cmd {
-    Release(usize, oneshot::Sender<usize>),
+    /// deliver up to n held datagrams (in arrival order); an optional new hold mode is installed first
+    Release(usize, Option<Hold>, oneshot::Sender<usize>),
 }
 
 struct Endpoint {
-    is_client: bool,
     sock: Arc<UdpSocket>,
     addr: SocketAddr,
     dtls: Arc<DtlsTransport>,
@@ -236,11 +236,13 @@ impl Endpoint {
     }
     async fn release(&self, n: usize) -> usize {
         let (tx, rx) = oneshot::channel();
-        let _ = self.cmd.send(Cmd::Release(n, tx));
+        let _ = self.cmd.send(Cmd::Release(n, None, tx));
         rx.await.unwrap_or(0)
     }
-    fn held_len(&self) -> usize {
-        self.tap.held.lock().len()
+    async fn release_into(&self, n: usize, mode: Hold) -> usize {
+        let (tx, rx) = oneshot::channel();
+        let _ = self.cmd.send(Cmd::Release(n, Some(mode), tx));
+        rx.await.unwrap_or(0)
     }
     fn drain_app(&mut self) -> (Vec<Bytes>, bool) {
         let mut v = Vec::new();
@@ -261,13 +263,16 @@ async fn read_loop(sock: Arc<UdpSocket>, conn: Arc<IceConn>, tap: Arc<Tap>, mut 
         tokio::select! {
             biased;
             c = cmd.recv() => match c {
-                Some(Cmd::Release(n, ack)) => {
+                Some(Cmd::Release(n, mode, ack)) => {
+                    if let Some(m) = mode {
+                        *tap.mode.lock() = m;
+                    }
                     let items: Vec<(Bytes, SocketAddr)> = {
                         let mut h = tap.held.lock();
                         let k = n.min(h.len());
                         h.drain(..k).collect()
                     };
-                    if tap.held.lock().is_empty() && n == usize::MAX {
+                    if mode.is_none() && tap.held.lock().is_empty() && n == usize::MAX {
                         *tap.mode.lock() = Hold::None;
                     }
                     let k = items.len();
@@ -360,7 +365,6 @@ async fn make_endpoint(
     // the DTLS receiver is registered (inside DtlsTransport::new) before the read loop starts
     let reader = tokio::spawn(read_loop(sock.clone(), conn.clone(), tap.clone(), cmd_rx));
     let ep = Endpoint {
-        is_client,
         sock,
         addr,
         dtls,
@@ -449,7 +453,7 @@ struct Live {
     flight: u64,
     sentinel_ctr: u64,
     forge_seq: u64,
-    uses: u64,
+    injected: u64,
 }
 
 impl Live {
@@ -504,7 +508,7 @@ async fn walk(certs: &Certs, target_is_client: bool, phase: Phase) -> Result<Liv
         flight: 4,
         sentinel_ctr: 0,
         forge_seq: 0,
-        uses: 0,
+        injected: 0,
     };
     let taps = [l.pair.c.tap.clone(), l.pair.s.tap.clone()];
     let tr: Vec<&Arc<Tap>> = taps.iter().collect();
@@ -822,6 +826,27 @@ fn build(l: &mut Live, act: &Value, certs: &Certs, rng: &mut Rng) -> Result<Buil
             }
             mk(b, "epoch field of a genuine record rewritten to 2")
         }
+        "dg-bad+auth" | "dg-auth+bad" => {
+            let how = act["how"].as_str().unwrap_or("");
+            let (bct, bcls) = match how {
+                "e0-app" => ("AppData", "e0-plain"),
+                "e0-close" => ("AlertClose", "e0-plain"),
+                "badtag" => ("AppData", "e1-badtag"),
+                "wrongkey" => ("AppData", "e1-wrongkey"),
+                x => return Err(format!("bad kind {x}")),
+            };
+            let bad = build(l, &json!({"ct": bct, "cls": bcls, "src": act["src"]}), certs, rng)?;
+            let good = build(l, &json!({"ct": "AppData", "cls": "e1-auth", "src": act["src"]}), certs, rng)?;
+            let mut d = Vec::new();
+            if cls == "dg-bad+auth" {
+                d.extend_from_slice(&bad.datagram);
+                d.extend_from_slice(&good.datagram);
+            } else {
+                d.extend_from_slice(&good.datagram);
+                d.extend_from_slice(&bad.datagram);
+            }
+            Ok(Built { datagram: d, authentic_app: good.authentic_app, note: format!("one datagram: {} ({how})", cls) })
+        }
         "othersession" => {
             // a genuine epoch-1 record of a different session (different keys)
             let key = rng.bytes(16);
@@ -846,7 +871,10 @@ async fn ensure_base(l: &mut Live, act: &Value) -> Result<(), String> {
     if l.base.get(&CT_APP).map(|b| b.len() * 8) == Some(bits) {
         return Ok(());
     }
-    if bits % 8 != 0 || bits / 8 < 37 + 1 {
+    if bits / 8 < 37 + 1 {
+        return Ok(()); // a prefix of the positions only (G-sim alphabet): any genuine record serves as base
+    }
+    if bits % 8 != 0 {
         return Err(format!("bad bits {bits}"));
     }
     let n = bits / 8 - 37;
@@ -971,10 +999,163 @@ async fn release_and_wait(l: &mut Live) -> Result<&'static str, String> {
     if !ok {
         return Err("handshake did not reach a terminal state after release".into());
     }
-    Ok(state_name(&t.get_state()))
+    let st = state_name(&t.get_state());
+    if st == "Connected" {
+        // the other side finishes on the target's final flight; sentinels need it connected as well
+        let p = if l.target_is_client { l.pair.s.dtls.clone() } else { l.pair.c.dtls.clone() };
+        if !wait_until(&tr, SETTLE_LIMIT, || state_name(&p.get_state()) != "Handshaking").await {
+            return Err("peer did not finish the handshake after release".into());
+        }
+    }
+    Ok(st)
 }
 
 // ------------------------------------------------------------------------------------------------ inject command
+
+/// What one injected record did on the live pair.
+struct Outcome {
+    built: Built,
+    settled: Settled,
+    pre_state: &'static str,
+    is_release: bool,
+}
+
+/// Inject the record `act` into the live pair in its current phase and settle.
+async fn exec_record(l: &mut Live, act: &Value, certs: &Certs, rng: &mut Rng) -> Result<Outcome, String> {
+    let phase = l.phase;
+    let target_is_client = l.target_is_client;
+    let pre_state = l.tgt().state();
+    let is_release = act["cls"] == "e1-auth" && act["ct"] == "Handshake" && phase == Phase::KeysPending;
+    ensure_base(l, act).await?;
+    let built = if is_release {
+        Built { datagram: Vec::new(), authentic_app: None, note: "the genuine held final flight is released".into() }
+    } else {
+        build(l, act, certs, rng).map_err(|e| format!("BUILD cannot build {act}: {e}"))?
+    };
+    let src = act["src"].as_str().unwrap();
+    l.injected += 1;
+    if is_release {
+        // the authentic handshake record of this phase is the genuine held flight
+        let st = release_and_wait(l).await?;
+        l.keys = l.pair.c.keys().or_else(|| l.pair.s.keys());
+        let (d, alive) = l.target().drain_app();
+        return Ok(Outcome { built, settled: Settled { delivered: d, state: st, alive, how: "release" }, pre_state, is_release });
+    }
+    inject(l, &built.datagram, src).await?;
+    if phase == Phase::NoKeys && target_is_client {
+        let st = release_and_wait(l).await?;
+        // everything queued before the held flight has been processed now; an application sentinel closes
+        // the observation window if the handshake completed
+        if st == "Connected" && l.pair.s.state() == "Connected" {
+            l.phase = Phase::Connected;
+            let s = settle(l).await;
+            l.phase = Phase::NoKeys;
+            let mut s = s?;
+            s.how = "release+app-sentinel";
+            return Ok(Outcome { built, settled: s, pre_state, is_release });
+        }
+        let (d, alive) = l.target().drain_app();
+        return Ok(Outcome { built, settled: Settled { delivered: d, state: st, alive, how: "release" }, pre_state, is_release });
+    }
+    let settled = settle(l).await?;
+    Ok(Outcome { built, settled, pre_state, is_release })
+}
+
+fn model_state_name(ph: &str) -> &str {
+    match ph {
+        "NoKeys" | "KeysPending" => "Handshaking",
+        x => x,
+    }
+}
+
+enum Estab {
+    Tool(String),
+    /// the implementation (legitimately) did not take the branch the model behaviour took
+    Unrealised(String),
+}
+
+/// The genuine key derivation: hand the held plaintext flight over, keep the final flight back.
+async fn derive_keys(l: &mut Live) -> Result<(), String> {
+    if l.phase != Phase::NoKeys {
+        return Err("derive-keys outside NoKeys".into());
+    }
+    let taps = [l.pair.c.tap.clone(), l.pair.s.tap.clone()];
+    let tr: Vec<&Arc<Tap>> = taps.iter().collect();
+    let ok = if l.target_is_client {
+        l.pair.c.release_into(usize::MAX, Hold::FinalFlight).await;
+        wait_until(&tr, SETUP_LIMIT, || {
+            l.pair.s.state() == "Connected"
+                && l.pair.c.tap.held.lock().iter().any(|(p, _)| p[0] == CT_HS && rec_epoch(p) >= 1)
+                && l.pair.c.tap.held.lock().iter().any(|(p, _)| p[0] == CT_CCS)
+        })
+        .await
+    } else {
+        let first_is_cke = l.pair.s.tap.held.lock().first().map(|(p, _)| hs_type(p) == 16).unwrap_or(false);
+        if !first_is_cke {
+            return Err("held flight does not start with ClientKeyExchange".into());
+        }
+        l.pair.s.release(1).await == 1
+    };
+    if !ok {
+        return Err("derive-keys did not complete".into());
+    }
+    l.phase = Phase::KeysPending;
+    l.keys = l.pair.c.keys().or_else(|| l.pair.s.keys());
+    l.collect_genuine();
+    if l.target_is_client {
+        let msg = Bytes::from_static(b"GENUINE!");
+        l.peer().dtls.send(msg.clone()).await.map_err(|e| format!("peer send: {e}"))?;
+        let got = tokio::time::timeout(SETUP_LIMIT, l.target().app_rx.recv()).await.map_err(|_| "genuine message not delivered")?;
+        if got.as_deref() != Some(&msg[..]) {
+            return Err(format!("genuine message garbled: {got:?}"));
+        }
+        l.collect_genuine();
+    }
+    Ok(())
+}
+
+/// Walk a fresh pair to the start phase of `pre` and execute the rest of the history on it.
+async fn establish(certs: &Certs, target_is_client: bool, pre: &[Value], rng: &mut Rng) -> Result<Live, Estab> {
+    let start = pre.first().and_then(|s| s["to"].as_str()).ok_or_else(|| Estab::Tool("empty history".into()))?;
+    let mut l = walk(certs, target_is_client, phase_of(start)).await.map_err(Estab::Tool)?;
+    for step in &pre[1..] {
+        let rec = &step["rec"];
+        let to = step["to"].as_str().unwrap_or("");
+        if rec["cls"] == "derive-keys" {
+            derive_keys(&mut l).await.map_err(Estab::Tool)?;
+            continue;
+        }
+        if l.phase == Phase::NoKeys && target_is_client {
+            return Err(Estab::Unrealised("client/NoKeys can only be observed by completing the handshake".into()));
+        }
+        let o = exec_record(&mut l, rec, certs, rng).await.map_err(Estab::Tool)?;
+        if !o.settled.alive || o.settled.state != model_state_name(to) {
+            return Err(Estab::Unrealised(format!("after {} the model is in {} but the pair is {} (alive={})", rec, to, o.settled.state, o.settled.alive)));
+        }
+        if to != "Failed" {
+            let np = phase_of(to);
+            if np != l.phase {
+                l.phase = np;
+                l.keys = l.pair.c.keys().or_else(|| l.pair.s.keys());
+                l.collect_genuine();
+                if matches!(np, Phase::Connected) && !l.base.contains_key(&CT_APP) {
+                    // the classes of the connected phase need genuine application records both ways
+                    let msg = Bytes::from_static(b"GENUINE!");
+                    l.peer().dtls.send(msg.clone()).await.map_err(|e| Estab::Tool(format!("peer send: {e}")))?;
+                    let _ = tokio::time::timeout(SETUP_LIMIT, l.target().app_rx.recv()).await;
+                }
+                if matches!(np, Phase::Connected) && !l.own.contains_key(&CT_APP) {
+                    let back = Bytes::from_static(b"OWNDATA!");
+                    l.tgt().dtls.send(back.clone()).await.map_err(|e| Estab::Tool(format!("target send: {e}")))?;
+                    let ep = if target_is_client { &mut l.pair.s } else { &mut l.pair.c };
+                    let _ = tokio::time::timeout(SETUP_LIMIT, ep.app_rx.recv()).await;
+                }
+                l.collect_genuine();
+            }
+        }
+    }
+    Ok(l)
+}
 
 fn allowed_has(exp: &Value, v: &Value) -> bool {
     exp["allowed"].as_array().map(|a| a.iter().any(|x| x == v)).unwrap_or(false)
@@ -989,98 +1170,85 @@ async fn run_inject(edges_path: &str, out_path: &str) {
         server: generate_certificate().expect("cert"),
         other: generate_certificate().expect("cert"),
     };
-    // group by (role, phase) keeping TLC's order inside a group
-    let mut groups: Vec<((String, String), Vec<usize>)> = Vec::new();
+    // group by (role, history) keeping TLC's order inside a group
+    let mut index: HashMap<String, usize> = HashMap::new();
+    let mut groups: Vec<(String, Vec<usize>)> = Vec::new();
     for (i, e) in edges.iter().enumerate() {
-        let k = (e["role"].as_str().unwrap().to_string(), e["phase"].as_str().unwrap().to_string());
-        match groups.iter_mut().find(|(g, _)| *g == k) {
-            Some((_, v)) => v.push(i),
-            None => groups.push((k, vec![i])),
+        let k = format!("{}|{}", e["role"].as_str().unwrap(), e["pre"]);
+        match index.get(&k) {
+            Some(g) => groups[*g].1.push(i),
+            None => {
+                index.insert(k.clone(), groups.len());
+                groups.push((k, vec![i]));
+            }
         }
     }
-    let (mut n_edges, mut n_div, mut n_pairs, mut n_tool) = (0u64, 0u64, 0u64, 0u64);
+    let (mut n_edges, mut n_div, mut n_pairs, mut n_tool, mut n_unreal) = (0u64, 0u64, 0u64, 0u64, 0u64);
+    let mut max_acc = 0u64;
     let mut observed: HashMap<String, u64> = HashMap::new();
-    for ((role, phase_s), idxs) in groups {
+    for (_, idxs) in groups {
+        let first = &edges[idxs[0]];
+        let role = first["role"].as_str().unwrap().to_string();
         let target_is_client = role == "client";
+        let pre: Vec<Value> = first["pre"].as_array().cloned().unwrap_or_default();
+        let phase_s = first["phase"].as_str().unwrap().to_string();
         let phase = phase_of(&phase_s);
         let mut live: Option<Live> = None;
+        let mut estab_failures = 0;
+        let mut group_dead: Option<Value> = None;
         for i in idxs {
             let e = &edges[i];
             let act = &e["act"];
             n_edges += 1;
+            if let Some(why) = &group_dead {
+                let mut w = why.clone();
+                w["edge"] = json!(i);
+                if w["type"] == "tool" {
+                    n_tool += 1;
+                    out.push(&w);
+                } else {
+                    n_unreal += 1;
+                }
+                continue;
+            }
             let mut attempt = 0;
             let row = loop {
                 attempt += 1;
-                // (re)build the pair when needed; pairs held in a handshake phase are retired well before
-                // the 30 s handshake deadline of the code under test could fire
-                let stale = live.as_ref().map(|l| phase != Phase::Connected && phase != Phase::Closed && l.pair.born.elapsed() > Duration::from_secs(12)).unwrap_or(false);
+                // pairs held in a handshake phase are retired well before the 30 s handshake deadline of the
+                // code under test could fire
+                let held_phase = phase != Phase::Connected && phase != Phase::Closed;
+                let stale = live.as_ref().map(|l| held_phase && l.pair.born.elapsed() > Duration::from_secs(12)).unwrap_or(false);
                 if live.is_none() || stale {
                     live = None;
-                    match walk(&certs, target_is_client, phase).await {
+                    match establish(&certs, target_is_client, &pre, &mut rng).await {
                         Ok(l) => {
                             n_pairs += 1;
                             live = Some(l);
                         }
-                        Err(err) => {
-                            if attempt < 3 {
+                        Err(Estab::Unrealised(why)) => {
+                            group_dead = Some(json!({"type": "unrealised", "why": why}));
+                            break json!({"type": "unrealised", "edge": i, "why": why});
+                        }
+                        Err(Estab::Tool(err)) => {
+                            estab_failures += 1;
+                            if estab_failures < 3 {
                                 continue;
                             }
-                            break json!({"type": "tool", "edge": i, "error": err});
+                            // fail fast: the whole group cannot be set up
+                            group_dead = Some(json!({"type": "tool", "error": format!("group setup failed: {err}"), "role": role, "phase": phase_s}));
+                            break json!({"type": "tool", "edge": i, "error": err, "role": role, "phase": phase_s});
                         }
                     }
                 }
                 let l = live.as_mut().unwrap();
-                l.uses += 1;
-                let pre_state = l.tgt().state();
-                let is_release = act["cls"] == "e1-auth" && act["ct"] == "Handshake" && phase == Phase::KeysPending;
-                if let Err(err) = ensure_base(l, act).await {
-                    live = None;
-                    if attempt < 3 {
-                        continue;
-                    }
-                    break json!({"type": "tool", "edge": i, "error": err});
-                }
-                let built = if is_release {
-                    Built { datagram: Vec::new(), authentic_app: None, note: "the genuine held final flight is released".into() }
-                } else {
-                    match build(l, act, &certs, &mut rng) {
-                        Ok(b) => b,
-                        Err(err) => break json!({"type": "tool", "edge": i, "error": format!("cannot build {}: {}", act, err)}),
-                    }
-                };
-                let src = act["src"].as_str().unwrap();
-                let res: Result<Settled, String> = async {
-                    if is_release {
-                        // the authentic handshake record of this phase is the genuine held flight
-                        let st = release_and_wait(l).await?;
-                        l.keys = l.pair.c.keys().or_else(|| l.pair.s.keys());
-                        let (d, alive) = l.target().drain_app();
-                        return Ok(Settled { delivered: d, state: st, alive, how: "release" });
-                    }
-                    inject(l, &built.datagram, src).await?;
-                    if phase == Phase::NoKeys && target_is_client {
-                        let st = release_and_wait(l).await?;
-                        // everything queued before the held flight has been processed now; an application
-                        // sentinel closes the observation window if the handshake completed
-                        if st == "Connected" && l.pair.s.state() == "Connected" {
-                            l.phase = Phase::Connected;
-                            let s = settle(l).await;
-                            l.phase = Phase::NoKeys;
-                            return s.map(|mut s| {
-                                s.how = "release+app-sentinel";
-                                s
-                            });
-                        }
-                        let (d, alive) = l.target().drain_app();
-                        return Ok(Settled { delivered: d, state: st, alive, how: "release" });
-                    }
-                    settle(l).await
-                }
-                .await;
-                let s = match res {
-                    Ok(s) => s,
+                let acc = l.injected;
+                let o = match exec_record(l, act, &certs, &mut rng).await {
+                    Ok(o) => o,
                     Err(err) => {
                         live = None;
+                        if err.starts_with("BUILD") {
+                            break json!({"type": "tool", "edge": i, "error": err});
+                        }
                         if attempt < 3 {
                             continue;
                         }
@@ -1088,16 +1256,17 @@ async fn run_inject(edges_path: &str, out_path: &str) {
                     }
                 };
                 // a pair in a handshake phase that got too old may have hit the code's own deadline
-                if phase != Phase::Connected && phase != Phase::Closed && l.pair.born.elapsed() > Duration::from_secs(25) && attempt < 3 {
+                if held_phase && l.pair.born.elapsed() > Duration::from_secs(25) && attempt < 3 {
                     live = None;
                     continue;
                 }
+                max_acc = max_acc.max(acc);
+                let s = &o.settled;
                 // classify what was delivered
-                let mut n_unauth = 0u64;
-                let mut n_auth = 0u64;
+                let (mut n_unauth, mut n_auth) = (0u64, 0u64);
                 let mut bad: Vec<String> = Vec::new();
                 for d in &s.delivered {
-                    if built.authentic_app.as_deref() == Some(&d[..]) {
+                    if o.built.authentic_app.as_deref() == Some(&d[..]) {
                         n_auth += 1;
                     } else {
                         n_unauth += 1;
@@ -1106,19 +1275,19 @@ async fn run_inject(edges_path: &str, out_path: &str) {
                 }
                 let obs = json!({
                     "delivered": n_auth + n_unauth, "deliveredAuthentic": n_auth, "deliveredOther": n_unauth,
-                    "state": s.state, "pre": pre_state, "alive": s.alive, "settledBy": s.how,
-                    "otherBytes": bad, "note": built.note, "len": built.datagram.len(),
+                    "state": s.state, "pre": o.pre_state, "alive": s.alive, "settledBy": s.how,
+                    "otherBytes": bad, "note": o.built.note, "len": o.built.datagram.len(),
+                    "datagram": hex(&o.built.datagram[..o.built.datagram.len().min(96)]),
+                    "records_injected_before_on_this_pair": acc,
                 });
                 let mut divs = Vec::new();
                 let exp = &e["exp"];
                 if !allowed_has(&exp["delivered"], &json!(n_auth + n_unauth)) {
                     divs.push(json!({"field": "delivered", "rule": exp["delivered"]["rule"], "allowed": exp["delivered"]["allowed"], "observed": n_auth + n_unauth}));
                 }
-                if n_unauth > 0 && exp["delivered"]["rule"] != "EXT" {
-                    // bytes handed up that are not the plaintext of an authentic record
-                    if !divs.iter().any(|d| d["field"] == "delivered") {
-                        divs.push(json!({"field": "delivered", "rule": "OnlyAuthentic", "allowed": [0], "observed": n_unauth, "why": "delivered bytes differ from the authentic plaintext"}));
-                    }
+                if n_unauth > 0 && e["keys"].as_bool().unwrap_or(true) && !divs.iter().any(|d| d["field"] == "delivered" && d["rule"] == "OnlyAuthentic") {
+                    // bytes handed up that are not the plaintext of an authentic record of this datagram
+                    divs.push(json!({"field": "delivered", "rule": "OnlyAuthentic", "allowed": [0], "observed": n_unauth, "why": "delivered bytes are not the plaintext of the authentic record"}));
                 }
                 if !allowed_has(&exp["state"], &json!(s.state)) {
                     divs.push(json!({"field": "state", "rule": exp["state"]["rule"], "allowed": exp["state"]["allowed"], "observed": s.state}));
@@ -1126,7 +1295,7 @@ async fn run_inject(edges_path: &str, out_path: &str) {
                 let key = format!("{}/{}/{}/{}:{}+{}", role, phase_s, act["ct"].as_str().unwrap(), act["cls"].as_str().unwrap(), s.state, n_auth + n_unauth);
                 *observed.entry(key).or_insert(0) += 1;
                 // retire the pair when it is no longer in the phase
-                let still = s.alive && s.state == pre_state && !is_release && !(phase == Phase::NoKeys && target_is_client);
+                let still = s.alive && s.state == o.pre_state && !o.is_release && !(phase == Phase::NoKeys && target_is_client);
                 if !still {
                     live = None;
                 }
@@ -1141,17 +1310,17 @@ async fn run_inject(edges_path: &str, out_path: &str) {
                     n_tool += 1;
                     out.push(&row);
                 }
-                _ => {
-                    if n_edges <= 5 || row["obs"]["delivered"].as_u64().unwrap_or(0) > 0 && n_edges % 50 == 0 {
-                        out.push(&row);
-                    }
+                "unrealised" => {
+                    n_unreal += 1;
                 }
+                _ => {}
             }
         }
     }
     let mut obs: Vec<(String, u64)> = observed.into_iter().collect();
     obs.sort();
     out.push(&json!({"type": "summary", "edges": n_edges, "divergences": n_div, "pairs": n_pairs, "tool_errors": n_tool,
+        "unrealised": n_unreal, "max_records_before_probe": max_acc,
         "observed": obs.into_iter().map(|(k, v)| json!([k, v])).collect::<Vec<_>>() }));
     out.finish();
 }
@@ -1248,14 +1417,15 @@ async fn run_egress(scen_path: &str, out_path: &str, trace_path: &str) {
                 start.wait().await;
                 for (mi, n) in list.into_iter().enumerate() {
                     let recs = n.div_ceil(MAX_APP_DATA_RECORD_SIZE) as u64;
+                    // reserve, then wait until the reservation fits the window
+                    let mine = sent.fetch_add(recs, Ordering::SeqCst);
                     loop {
                         let got = rx_tap.total.load(Ordering::SeqCst) - base_total;
-                        if sent.load(Ordering::SeqCst) + recs <= got + WINDOW {
+                        if mine + recs <= got + WINDOW.max(recs) {
                             break;
                         }
                         tokio::task::yield_now().await;
                     }
-                    sent.fetch_add(recs, Ordering::SeqCst);
                     let p = Bytes::from(payload_for(ti, mi, n));
                     if let Err(e) = sender.send(p).await {
                         errs.lock().push(format!("task {ti} msg {mi}: {e}"));
